@@ -669,6 +669,7 @@ func Shl(a, n AV) AV {
 	} else if hi != posInf && lo >= 0 {
 		r.Bits = maskFor(uint64(hi))
 	}
+	r.Raw = a.Raw && constCount
 	return r
 }
 
@@ -718,6 +719,7 @@ func Shr(a, n AV) AV {
 			r.SanHi = true
 		}
 	}
+	r.Raw = a.Raw && constCount
 	return r
 }
 
